@@ -195,8 +195,8 @@ def merge_instantiations(em, uspec):
     for c in em.fn_order:
         byq.setdefault(strip_targs(em.fn_meta[c]['qname']), []).append(c)
         aq = aliased(em.fn_meta[c]['qname'])
-        if aq != em.fn_meta[c]['qname']:
-            byq.setdefault(aq, []).append(c)
+        if aq != em.fn_meta[c]['qname'] and c not in byq.setdefault(aq, []):
+            byq[aq].append(c)
     for e in uspec.emit:
         if len(e) > 2 and e[2]:
             k = 0
@@ -303,12 +303,16 @@ def assemble(ub):
     L.append('unsigned g_moved_self;')
     cnts, allg = ['g_moved_self'], ['g_moved_self']
     for sname, (ret, atys) in em.stubs.items():
+        if not us.counters:
+            if ret.strip().endswith('*') and not (sname in us.functions and us.functions[sname].assume_only):
+                L.append('extern %s g_sink_%s;' % (ret.strip()[:-1].strip(), sname[6:]))
+            continue
         L.append('unsigned g_cnt_%s;' % sname[6:])
         cnts.append('g_cnt_%s' % sname[6:])
         allg.append('g_cnt_%s' % sname[6:])
         if ret.strip().endswith('*') and not (sname in us.functions and us.functions[sname].assume_only):
-            L.append('%s g_sink_%s;' % (ret.strip()[:-1].strip(), sname[6:]))
-            allg.append('g_sink_%s' % sname[6:])
+            # never written: an object with arbitrary contents (extern without definition)
+            L.append('extern %s g_sink_%s;' % (ret.strip()[:-1].strip(), sname[6:]))
         for i, t in enumerate(atys):
             tt = t.replace('/*in*/', '').strip()
             if tt in ('int', 'unsigned int', 'unsigned char', 'unsigned short', 'short', 'long', 'unsigned long', '_Bool', 'ec_t', 'it_t', 'char', 'opq_t'):
@@ -338,8 +342,9 @@ def assemble(ub):
         if fs is not None and fs.assume_only:
             continue
         L.append('%s %s(%s) {' % (ret, sname, params))
-        L.append('  g_cnt_%s++;' % sname[6:])
-        for i, t in enumerate(atys):
+        if us.counters:
+            L.append('  g_cnt_%s++;' % sname[6:])
+        for i, t in enumerate(atys if us.counters else []):
             tt = t.replace('/*in*/', '').strip()
             if tt in ('int', 'unsigned int', 'unsigned char', 'unsigned short', 'short', 'long', 'unsigned long', '_Bool', 'ec_t', 'it_t', 'char', 'opq_t'):
                 L.append('  g_arg_%s_%d = a%d;' % (sname[6:], i, i))
@@ -375,7 +380,7 @@ def assemble(ub):
         if ret.strip() != 'void':
             if ret.strip().endswith('*'):
                 # reference result: a ghost object of that type (listed in VERIF_COUNTERS)
-                L.append('  %s nd; g_sink_%s = nd; return &g_sink_%s;' % (ret.strip()[:-1].strip(), sname[6:], sname[6:]))
+                L.append('  return &g_sink_%s;' % sname[6:])
             else:
                 L.append('  %s r; return r;' % ret)
         L.append('}')
